@@ -50,6 +50,8 @@ func ruleTabOnly(p *Prog, r *Report, c tabOnlyCfg) {
 	for _, v := range c.viaFuncs {
 		via[p.Func(v.pkg, v.recv, v.name)] = true
 	}
+	// bindings of the parameters of a helper being looked into (see the *ssa.Call case of allowed)
+	env := map[*ssa.Parameter]ssa.Value{}
 	var fromTable func(v ssa.Value, d int) bool
 	fromTable = func(v ssa.Value, d int) bool {
 		if d > 12 {
@@ -58,6 +60,10 @@ func ruleTabOnly(p *Prog, r *Report, c tabOnlyCfg) {
 		switch x := v.(type) {
 		case *ssa.Global:
 			return tables[x.Object()]
+		case *ssa.Parameter:
+			if a, ok := env[x]; ok {
+				return fromTable(a, d+1)
+			}
 		case *ssa.UnOp:
 			if x.Op == token.MUL {
 				return fromTable(x.X, d+1)
@@ -100,6 +106,9 @@ func ruleTabOnly(p *Prog, r *Report, c tabOnlyCfg) {
 		return false
 	}
 	seenP := map[*ssa.Phi]bool{}
+	// nilOK: a nil result is acceptable here (the zero value is a documented default, or the value is tested non-nil
+	// on the way to the return being examined)
+	nilOK := c.zero
 	var allowed func(v ssa.Value, d int) string
 	allowed = func(v ssa.Value, d int) string {
 		if d > 12 {
@@ -108,7 +117,7 @@ func ruleTabOnly(p *Prog, r *Report, c tabOnlyCfg) {
 		switch x := v.(type) {
 		case *ssa.Const:
 			if x.Value == nil {
-				if c.zero {
+				if c.zero || nilOK {
 					return ""
 				}
 				return "nil"
@@ -121,6 +130,9 @@ func ruleTabOnly(p *Prog, r *Report, c tabOnlyCfg) {
 			}
 			return "the constant " + x.Value.ExactString()
 		case *ssa.Parameter:
+			if a, ok := env[x]; ok {
+				return allowed(a, d+1)
+			}
 			if c.params {
 				return ""
 			}
@@ -144,6 +156,25 @@ func ruleTabOnly(p *Prog, r *Report, c tabOnlyCfg) {
 			if sc := x.Common().StaticCallee(); sc != nil && via[sc] {
 				return ""
 			}
+			// an unexported helper of the same package (the scan moved out of the lookup function): every value it
+			// returns must be allowed, with its parameters bound to the arguments of this call
+			if sc := x.Common().StaticCallee(); sc != nil && sc.Blocks != nil && fnPkg(sc) == fnPkg(f) && sc != f && sc.Object() != nil && !sc.Object().Exported() && len(env) == 0 && sc.Signature.Results().Len() == 1 {
+				for i, q := range sc.Params {
+					if i < len(x.Common().Args) {
+						env[q] = x.Common().Args[i]
+					}
+				}
+				res := ""
+				for _, b := range sc.Blocks {
+					if ret, ok := b.Instrs[len(b.Instrs)-1].(*ssa.Return); ok && res == "" {
+						res = allowed(ret.Results[0], d+1)
+					}
+				}
+				for _, q := range sc.Params {
+					delete(env, q)
+				}
+				return res
+			}
 		case *ssa.Extract:
 			if call, ok := x.Tuple.(*ssa.Call); ok {
 				if sc := call.Common().StaticCallee(); sc != nil && via[sc] {
@@ -164,6 +195,7 @@ func ruleTabOnly(p *Prog, r *Report, c tabOnlyCfg) {
 				continue
 			}
 			n++
+			nilOK = c.zero || testedNonNil(ret.Results[c.resultIdx], ret.Block())
 			s := allowed(ret.Results[c.resultIdx], 0)
 			if s != "" {
 				r.Bad(rule, key, p.IPos(in), fmt.Sprintf("%s returns %s, which is neither an entry of %v nor the documented default: the lookup can disagree with a scan of its table", c.fn, s, c.table))
@@ -278,3 +310,4 @@ func appendedFromTable(a ssa.Value, isTabLoad func(ssa.Value) bool) bool {
 	}
 	return false
 }
+
